@@ -585,7 +585,7 @@ func main() {
 		os.Exit(3)
 	}
 	defer out.Close()
-	par := 6
+	par := 16
 	if v, err := strconv.Atoi(os.Getenv("CATWATCH_PAR")); err == nil && v > 0 {
 		par = v
 	}
